@@ -94,7 +94,7 @@ class Expr:
             f = dotted(node.func)
             if isinstance(node.func, ast.Attribute) and node.func.attr in ("startswith", "endswith"):
                 return "bool"
-            if isinstance(node.func, ast.Name) and node.func.id == "len":
+            if isinstance(node.func, ast.Name) and node.func.id in ("len", "int"):
                 return "Z"
             if f in self.calls:
                 return self.calls[f][1]
@@ -187,9 +187,18 @@ class Expr:
                     bail(node, "startswith on non-str")
                 return f"({f} {self.tr(node.args[0])} {self.tr(node.func.value)})"
             if isinstance(node.func, ast.Name) and node.func.id == "len" and len(node.args) == 1:
+                if self.ty(node.args[0]) == "list":
+                    n = dotted(node.args[0]) + "_len"
+                    self.env[n] = "Z"
+                    self.free[n] = "Z"
+                    return n
                 if self.ty(node.args[0]) != "str":
                     bail(node, "len of non-str")
                 return f"(Z.of_nat (length {self.tr(node.args[0])}))"
+            if isinstance(node.func, ast.Name) and node.func.id == "int" and len(node.args) == 1 and not node.keywords:
+                if self.ty(node.args[0]) != "Z":
+                    bail(node, "int() of non-integer")
+                return self.tr(node.args[0])
             f = dotted(node.func)
             if f in self.calls and not node.keywords:
                 return "(" + " ".join([self.calls[f][0]] + [self.tr(a) for a in node.args]) + ")"
@@ -255,16 +264,18 @@ def reject_clauses(tree, qual, arg, coqname=None):
     return f"Definition {coqname or fn.name} ({arg} : str) : bool :=\n  " + "\n  || ".join(clauses or ["false"]) + "."
 
 
-def assigned(tree, qual, target, env, coqname, order=None, calls=None):
-    """the expression of the first assignment to `target` inside function `qual`, as a function of its free names"""
+def assigned(tree, qual, target, env, coqname, order=None, calls=None, which=0):
+    """the expression of the which-th assignment to `target` inside function `qual`, as a function of its free names"""
     fn = find_func(tree, qual)
     hits = [n for n in ast.walk(fn) if isinstance(n, ast.Assign) and len(n.targets) == 1 and isinstance(n.targets[0], ast.Name) and n.targets[0].id == target]
     hits.sort(key=lambda n: n.lineno)
     if not hits:
         raise Untranslatable(f"UNTRANSLATABLE: assignment to {target} in {qual} not found")
-    ex = Expr(env, calls)
-    body = ex.tr(hits[0].value)
-    return f"(* line {hits[0].lineno} *) Definition {coqname} {ex.args(order)} := {body}."
+    if which >= len(hits):
+        raise Untranslatable(f"UNTRANSLATABLE: assignment #{which} to {target} in {qual} not found")
+    ex = Expr(dict(env), calls)
+    body = ex.tr(hits[which].value)
+    return f"(* line {hits[which].lineno} *) Definition {coqname} {ex.args(order)} := {body}."
 
 
 def if_tests(fn):
@@ -281,7 +292,7 @@ def nth_test(tree, qual, n, env, coqname, order=None, calls=None, expect_count=N
         raise Untranslatable(f"UNTRANSLATABLE: {qual} has {len(ifs)} if/while tests, the locator expects {expect_count}")
     if n >= len(ifs):
         raise Untranslatable(f"UNTRANSLATABLE: {qual} has no test #{n}")
-    ex = Expr(env, calls)
+    ex = Expr(dict(env), calls)
     body = ex.truthy(ifs[n].test)
     return f"(* line {ifs[n].lineno} *) Definition {coqname} {ex.args(order)} : bool := {body}."
 
